@@ -183,6 +183,10 @@ class Facts:
                 self._parse(texts)
                 for new, old in sorted(amap.items()):
                     self.canon_log.append("moved/renamed: %s is analysed as %s" % (new, old))
+            # P1b: two copies of one function merged into one: the removed copy's anchor reads the survivor
+            for gone, kept in sorted(canon.merged_duplicates(self, self.crate, set(amap.values())).items()):
+                self.fns[gone] = self.fns[kept]
+                self.canon_log.append("merged duplicate: %s no longer exists, its callers use %s, which is analysed in its place" % (gone, kept))
             # P2: functions the reference tree does not have are spliced into their callers
             self.canon_log += canon.inline_new_functions(self, self.crate)
             # P5: hand-written `if a > b { b } else { a }` is read as min(a, b)
